@@ -1,11 +1,13 @@
 """C13 -- results are local: a pixel depends on its neighbourhood, not on its position.
 
-Theorems: Props/C13.v (locality of the cost SPEC, of the sad/ssd MODEL, of the criteria flags, of
-        winner-takes-all, refinement, median and bilateral filters, cross-checking, of every pipeline of these steps;
-        crop invariance).  The per-step models are tied to the code by the correspondences of
-        C02/C03/C04/C06/C07/C10; nothing new is hand-modelled here except the glue Model/Local.v.
+Theorems: Props/C13.v (locality of the cost SPEC, of the sad/ssd/census/zncc MODEL, of the criteria flags, of the
+        cbca SPEC and MODEL (through C11's model = spec), of winner-takes-all, refinement, median and bilateral
+        filters, cross-checking, of every pipeline of these steps: C13_pipeline_local; crop invariance).  The
+        per-step models are tied to the code by the correspondences of C02/C03/C04/C06/C07/C10/C11; nothing new is
+        hand-modelled here except the glue Model/Local.v.
 T-corr: the cone / margin of each pipeline is computed by the EXTRACTED [kpipe_rad] (the radii of the
-        theorem, C13_radii_agree) and decides which pixels of a crop are compared.
+        theorem, C13_radii_agree; cbca: arms of max(cbca_distance - 1, 1) pixels, + 1 for the 3x3 median
+        pre-filter or the window offset) and decides which pixels of a crop are compared.
 Search: impl-vs-impl metamorphic runs on the real code (public entry point pandora.run, compiled
         kernels): a whole scene against crops at random offsets / sizes (odd and even offsets), and
         against the vertically flipped scene; disparity maps and validity masks of the left AND right
@@ -24,7 +26,8 @@ EXTRACT_FILES = ["X13"]
 DRIVERS = ["x13"]
 RULE = ("a case = one scene (24-40 x 40-64 pair, integer radiometry inside the exact domain of the measure, right image = "
         "left shifted by -2..2 plus sparse noise, optional masks with no-data (1) and invalid (2) pixels on each side), one "
-        "local pipeline (matching cost sad/ssd/census/zncc, window 1/3/5, subpix 1/2/4; optional cbca; wta with "
+        "local pipeline (matching cost sad/ssd/census/zncc, window 1/3/5, subpix 1/2/4; optional cbca with cbca_distance 1/2/3/5, "
+        "60 % of the cbca scenes low-contrast (radiometry 0..12 or 0..40) so that the arms reach their maximal length; wta with "
         "invalid_disparity -9999 or NaN; optional vfit/quadratic refinement; optional median 3/5 or bilateral filter; "
         "optional cross-checking, optional median after it), an integer interval with |d| <= 4, compared with 2 (quick) "
         "or 4 crops; 1 (quick) / 12 scenes of 103-111 x 104-125 pixels straddle the 100- and 50-pixel blocks of wta, median, bilateral; "
@@ -33,10 +36,11 @@ RULE = ("a case = one scene (24-40 x 40-64 pair, integer radiometry inside the e
         "non-trivial when the compared interior holds >= 20 pixels, >= 2 distinct disparities and (with cross-checking) "
         ">= 1 flagged pixel; distinct by (pipeline, scene digest, crop)")
 ASSUMES = [
-    "the per-step models are those of C02/C03/C04/C06/C07/C10 (their correspondences tie them to the code); the "
-    "theorem for pipelines covers sad/ssd + validity mask, wta, vfit/quadratic, median, bilateral, cross-checking "
-    "(C13_pipeline_local_partial); census/zncc are covered at spec level; cbca and the vertical flip are "
-    "covered by these metamorphic runs only",
+    "the per-step models are those of C02/C03/C04/C06/C07/C10/C11 (their correspondences tie them to the code); the "
+    "theorem for pipelines (C13_pipeline_local) covers sad/ssd/census/zncc + validity mask, cbca, wta, vfit/quadratic, "
+    "median, bilateral, cross-checking; zncc: the model holds the exact integer triple (cov, varL, varR), the float "
+    "evaluation of cov/sqrt(varL varR) is any function of it; the vertical flip is covered by these metamorphic "
+    "runs only",
     "side condition of cross-checking locality (px_ok): a still-valid pixel holds a disparity that rounds into its "
     "interval; checked on the final maps of every run",
     "exact domain (DESIGN 2.1 a): radiometry bounded so that every window sum of the measure is exact in float32; "
@@ -83,7 +87,7 @@ def gen_pipeline(rng, force):
     ks = [[0, 0]]
     cbca = force.get("cbca", rng.random() < 0.3)
     if cbca:
-        dist = rng.choice([2, 3, 5])
+        dist = rng.choice([1, 2, 3, 5])
         p.append(["aggregation", {"aggregation_method": "cbca", "cbca_intensity": float(rng.choice([5, 20, 60])),
                                   "cbca_distance": dist}])
         ks.append([1, dist])
@@ -338,6 +342,11 @@ def gen_case(rng, model, force, ncrops):
     if force.get("big"):     # straddles the 100-pixel (50 for bilateral) blocks of wta / median / bilateral
         rows, cols = rng.randrange(103, 112), rng.randrange(104, 126)
     maxv = rng.choice([exact_maxv(info), min(255, exact_maxv(info))])
+    if info["cbca"] and rng.random() < 0.6:
+        # low-contrast scene: intensity jumps below cbca_intensity, so that the arms reach their maximal length
+        # max(cbca_distance - 1, 1) and the support regions fill the proved cone (random 10-bit radiometry gives
+        # one-pixel arms almost everywhere)
+        maxv = rng.choice([12, 40])
     if force.get("big_radiometry"):
         maxv = 4000
     left, right, ml, mr = gen_scene(rng, rows, cols, maxv, (rng.random() < 0.6, rng.random() < 0.6))
@@ -384,6 +393,11 @@ def run(ctx):
     if D != [2, 6, 6] or M != [2, 6, 6]:
         ctx.mismatch("radii_example", "window 3, [-2,1], mc wta refine median3 xcheck", [D, M], [[2, 6, 6], [2, 6, 6]])
     ctx.stats["example_radii"] = {"data_cone": D, "margin": M}
+    # with cbca_distance 3 (arms of at most 2 pixels) and median 5: rows 1 + 2 + 2, columns 5 + 2 + 2
+    D2, M2 = model.call(1, [3, -2, 1, [[0, 0], [1, 3], [2, 0], [3, 5], [4, 0]]])
+    if D2 != [5, 9, 9] or M2 != [5, 9, 9]:
+        ctx.mismatch("radii_example_cbca", "window 3, [-2,1], mc cbca3 wta median5 xcheck", [D2, M2], [[5, 9, 9], [5, 9, 9]])
+    ctx.stats["example_radii_cbca"] = {"data_cone": D2, "margin": M2}
     if ctx.replay_case is not None:
         case = dict(ctx.replay_case)
         if "crop" in case:          # a failing crop: replay that crop only
